@@ -76,28 +76,31 @@ Example C20_sub_range_ex :
   is_sub_of ["n";"ol"] ["n";"ol"] = false.
 Proof. vm_compute. repeat split. Qed.
 
-(* (3) expiry = exactly the blocks bought.  Full strength is false of the faithful model (the
-   quotient is narrowed to int64); the partial theorems hold outside the Coq-defined triggers. *)
-Theorem C20_create_expiry_partial : forall e s a b n uo u price s1,
+(* (3) expiry = exactly the blocks bought, for ALL amounts (full theorems since /repo bd3d183: a
+   block count that does not fit an int64 expiry height is refused instead of wrapped; before
+   that fix these were _partial + a _refuted witness, finding C20.expiry_blocks_ge_2p63, now
+   "fixed").  The expiry is never in the past after a paid create / renew / purchase. *)
+Theorem C20_create_expiry : forall e s a b n uo u price s1,
   run_create e s a b n uo u price = Some s1 -> is_sub n = false ->
-  0 < o_perblock (e_opts e) -> 0 <= e_v e -> trig_create_overflow e price = false ->
+  0 < o_perblock (e_opts e) -> 0 <= e_v e ->
   exists d, reg s1 !! n = Some d /\
-    d_expiry d = e_v e + (price - o_base (e_opts e)) / o_perblock (e_opts e).
-Proof. exact create_expiry_partial. Qed.
-Print Assumptions C20_create_expiry_partial.
+    d_expiry d = e_v e + (price - o_base (e_opts e)) / o_perblock (e_opts e) /\
+    e_v e <= d_expiry d.
+Proof. exact create_expiry_exact. Qed.
+Print Assumptions C20_create_expiry.
 
-Theorem C20_create_expiry_refuted_1 : exists e s a b n uo u price s1 d,
-  run_create e s a b n uo u price = Some s1 /\ is_sub n = false /\ 0 < o_perblock (e_opts e) /\
-  0 <= e_v e /\ trig_create_overflow e price = true /\ reg s1 !! n = Some d /\
-  d_expiry d <> e_v e + (price - o_base (e_opts e)) / o_perblock (e_opts e).
-Proof.
-  exists {| e_h := 2; e_v := 1; e_opts := {| o_perblock := 1; o_base := 1; o_tlds := ["ol"] |} |},
-    (init_state {[ 0%N := 1000000000000000000000000 ]}), 0%N, None, ["n";"ol"], true, "http://x.y",
-    10000000000000000000.
-  eexists. eexists. split; [vm_compute; reflexivity|].
-  split; [reflexivity|]. split; [reflexivity|]. split; [discriminate|]. split; [vm_compute; reflexivity|].
-  split; [vm_compute; reflexivity|]. vm_compute. discriminate.
-Qed.
+(* the former refuting input (perBlockFees = 1, 10 OLT = 10^19 units >= 2^63 blocks) is now
+   refused without a trace; the 9 OLT registration next to it is served exactly *)
+Definition C20_big_e : env :=
+  {| e_h := 2; e_v := 1; e_opts := {| o_perblock := 1; o_base := 1; o_tlds := ["ol"] |} |}.
+Example C20_create_overflow_refused :
+  let s := init_state {[ 0%N := 1000000000000000000000000 ]} in
+  let t price := {| t_op := Create 0%N None ["n";"ol"] true "http://x.y" price; t_env := C20_big_e;
+                    t_payer := 0%N; t_fee := Some 1; t_static_ok := true; t_nil_benef := false |} in
+  deliver s (t 10000000000000000000) = (s, false) /\
+  (deliver s (t 9000000000000000000)).2 = true /\
+  (d_expiry <$> reg (deliver s (t 9000000000000000000)).1 !! ["n";"ol"]) = Some 9000000000000000000.
+Proof. vm_compute. repeat split. Qed.
 
 (* a sub-name gets its parent's expiry *)
 Theorem C20_create_sub_expiry : forall e s a b n uo u price s1,
@@ -105,34 +108,31 @@ Theorem C20_create_sub_expiry : forall e s a b n uo u price s1,
   exists d p, reg s1 !! n = Some d /\ reg s !! parent_name n = Some p /\ d_expiry d = d_expiry p.
 Proof. exact create_sub_expiry. Qed.
 
-Theorem C20_renew_expiry_partial : forall e s a n price s1 d, run_renew e s a n price = Some s1 ->
-  reg s !! n = Some d -> 0 < o_perblock (e_opts e) -> 0 <= e_v e -> int64 (d_expiry d) ->
-  trig_renew_overflow e d price = false ->
-  exists d', reg s1 !! n = Some d' /\ d_expiry d' = d_expiry d + price / o_perblock (e_opts e).
-Proof. exact renew_expiry_partial. Qed.
-Print Assumptions C20_renew_expiry_partial.
-
-(* renewal: only the owner, pays the price to the pool, every committed sub-name follows *)
-Theorem C20_renew_subs_follow : forall e s a n price s1, run_renew e s a n price = Some s1 ->
-  0 < o_perblock (e_opts e) -> 0 <= e_v e ->
+(* renewal: only the owner, of a name that is not expired, pays the price to the pool; expiry
+   extended by exactly price/perBlock blocks; every committed sub-name follows
+   ([int64 (d_expiry d)]: the stored field is a Go int64) *)
+Theorem C20_renew_expiry : forall e s a n price s1, run_renew e s a n price = Some s1 ->
+  0 < o_perblock (e_opts e) ->
   exists d d', reg s !! n = Some d /\ reg s1 !! n = Some d' /\ d_owner d = a /\
-    pool s1 = pool s + price /\
-    (int64 (d_expiry d) -> d_expiry d + price / o_perblock (e_opts e) < 2^63 ->
-     d_expiry d' = d_expiry d + price / o_perblock (e_opts e)) /\
+    pool s1 = pool s + price /\ e_v e <= d_expiry d /\
+    (int64 (d_expiry d) ->
+     d_expiry d' = d_expiry d + price / o_perblock (e_opts e) /\ d_expiry d <= d_expiry d') /\
     (forall m dm, visited s n m = true -> reg s !! m = Some dm ->
        exists dm', reg s1 !! m = Some dm' /\ d_expiry dm' = d_expiry d').
 Proof. exact renew_expiry_exact. Qed.
+Print Assumptions C20_renew_expiry.
 
-Theorem C20_purchase_expiry_partial : forall e s buyer acct n offer s1 d,
-  run_purchase e s buyer acct n offer = Some s1 -> reg s !! n = Some d ->
-  0 < o_perblock (e_opts e) -> 0 <= e_v e -> int64 (d_expiry d) ->
-  trig_purchase_overflow e d offer = false ->
-  exists d', reg s1 !! n = Some d' /\ d_owner d' = buyer /\
-    d_expiry d' = Z.max (d_expiry d) (e_v e)
-      + (if sale_branch e d then offer - default 0 (d_price d) else offer - o_base (e_opts e))
-        / o_perblock (e_opts e).
-Proof. exact purchase_expiry_partial. Qed.
-Print Assumptions C20_purchase_expiry_partial.
+Theorem C20_purchase_expiry : forall e s buyer acct n offer s1,
+  run_purchase e s buyer acct n offer = Some s1 -> 0 < o_perblock (e_opts e) -> 0 <= e_v e ->
+  exists d d', reg s !! n = Some d /\ reg s1 !! n = Some d' /\ d_owner d' = buyer /\
+    d_onsale d' = false /\ d_price d' = None /\ d_active d' = true /\
+    let paid_for_time := if sale_branch e d then offer - default 0 (d_price d)
+                         else offer - o_base (e_opts e) in
+    (int64 (d_expiry d) ->
+     d_expiry d' = Z.max (d_expiry d) (e_v e) + paid_for_time / o_perblock (e_opts e) /\
+     e_v e <= d_expiry d').
+Proof. exact purchase_expiry_exact. Qed.
+Print Assumptions C20_purchase_expiry.
 
 (* Exclusive ownership below a name: "every sub-name is owned by its parent's owner" is FALSE of
    the faithful model.  DeleteAllSubdomains iterates the committed tree's keys, so a sub-name
